@@ -178,9 +178,10 @@ pub fn sparse_bit_set(members: &[u32], bf: u32, elide: bool) -> Vec<u8> {
     out
 }
 
-/// Specification-text decoder (used by the C14 codec oracle): returns members (after bias,
-/// bounded by max) and the number of bytes consumed, or None if the stream is too short.
-pub fn sparse_bit_set_decode_spec(data: &[u8], bias: u32, max_value: u32) -> Option<(Vec<u32>, usize)> {
+/// Specification-text decoder (used by the C14 codec oracle): returns the members as sorted,
+/// merged inclusive intervals (after bias, bounded by max) and the number of bytes consumed, or
+/// None if the stream is too short.
+pub fn sparse_bit_set_decode_spec(data: &[u8], bias: u32, max_value: u32) -> Option<(Vec<(u32, u32)>, usize)> {
     let first = *data.first()?;
     let bf: u64 = match first & 3 {
         0 => 2,
@@ -192,9 +193,8 @@ pub fn sparse_bit_set_decode_spec(data: &[u8], bias: u32, max_value: u32) -> Opt
     if height == 0 {
         return Some((vec![], 1));
     }
-    // bit reader over data[1..]
     let mut bitpos: usize = 8;
-    let mut read_node = |bitpos: &mut usize| -> Option<u32> {
+    let read_node = |bitpos: &mut usize| -> Option<u32> {
         let mut v = 0u32;
         for i in 0..bf as usize {
             let p = *bitpos + i;
@@ -204,7 +204,7 @@ pub fn sparse_bit_set_decode_spec(data: &[u8], bias: u32, max_value: u32) -> Opt
         *bitpos += bf as usize;
         Some(v)
     };
-    let mut members: Vec<u32> = Vec::new();
+    let mut ivs: Vec<(u32, u32)> = Vec::new();
     let mut q: VecDeque<(u64, u32)> = VecDeque::new();
     q.push_back((0, 1));
     while let Some((start, depth)) = q.pop_front() {
@@ -213,13 +213,8 @@ pub fn sparse_bit_set_decode_spec(data: &[u8], bias: u32, max_value: u32) -> Opt
             let size = bf.pow(height - depth + 1);
             let lo = start + bias as u64;
             let hi = (start + size - 1 + bias as u64).min(max_value as u64);
-            let mut v = lo;
-            while v <= hi {
-                members.push(v as u32);
-                v += 1;
-                if members.len() > 3_000_000 {
-                    return Some((members, usize::MAX)); // too large to enumerate: caller skips
-                }
+            if lo <= hi {
+                ivs.push((lo as u32, hi as u32));
             }
             continue;
         }
@@ -229,17 +224,29 @@ pub fn sparse_bit_set_decode_spec(data: &[u8], bias: u32, max_value: u32) -> Opt
                 if depth == height {
                     let v = start + c + bias as u64;
                     if v <= max_value as u64 {
-                        members.push(v as u32);
+                        ivs.push((v as u32, v as u32));
                     }
                 } else {
                     q.push_back((start + c * child, depth + 1));
                 }
             }
         }
+        if q.len() > 2_000_000 {
+            return Some((ivs, usize::MAX)); // harness budget: caller skips the comparison
+        }
     }
-    members.sort_unstable();
-    members.dedup();
-    Some((members, bitpos.div_ceil(8)))
+    ivs.sort_unstable();
+    let mut out: Vec<(u32, u32)> = Vec::with_capacity(ivs.len());
+    for (a, b) in ivs {
+        if let Some(l) = out.last_mut() {
+            if a as u64 <= l.1 as u64 + 1 {
+                l.1 = l.1.max(b);
+                continue;
+            }
+        }
+        out.push((a, b));
+    }
+    Some((out, bitpos.div_ceil(8)))
 }
 
 // ------------------------------------------------------------ URI templates
